@@ -516,7 +516,7 @@ func runScenario(sc *Scenario) (out outcome) {
 
 func main() {
 	a := vlib.ParseArgs()
-	res := vlib.NewResult("C08", a.Out, "marker-carrying workloads (writes, batches, oversized batches, transactions, CompactRange, reopen; tiny buffers) x fault positions: the k-th {write, sync, create, open, read, remove, closew} on {journal, manifest, table} files, once or persistently, partial writes, singly (quick) or in pairs (thorough), armed at a random step and healed at a later one; checked while faults are active (errors allowed, wrong data not), after healing, and after close + reopen against the three-valued batch oracle read off the unique markers; after healing a synced write must succeed (retried for 12 s) and a crash image (unsynced tails lost) taken after healing and at the end must open, serve no error and hold every sync-acknowledged write; one scenario in sixteen is directed at a failing transaction commit; every scenario is also translated into the Coq fault model (K); non-trivial = a fault actually fired on a journal/manifest/table write, sync, create or remove (not a read)")
+	res := vlib.NewResult("C08", a.Out, "marker-carrying workloads (writes, batches, oversized batches, transactions, CompactRange, reopen; tiny buffers) x fault positions: the k-th {write, sync, create, open, read, remove, closew} on {journal, manifest, table} files, once or persistently, partial writes, singly (quick) or in pairs (thorough), armed at a random step and healed at a later one; checked while faults are active (errors allowed, wrong data not), after healing, and after close + reopen against the three-valued batch oracle read off the unique markers; after healing a synced write must succeed (retried for 12 s) and a crash image (unsynced tails lost) taken after healing and at the end must open, serve no error and hold every sync-acknowledged write; one scenario in sixteen is directed at a failing transaction commit; every scenario is also translated into the Coq fault model (K); non-trivial = a fault actually fired on a journal/manifest/table write, sync, create or remove (not a read); plus a directed family (dbh.RunDeep, after the marker scenarios): three or more levels built with tiny table/level sizes, waves of acknowledged Deletes whose markers sit above values stored two or more levels further down, ONE transient table write/sync/create fault armed for a DB.CompactRange over everything (the builder is retried from its last snapshot), healing, settling: every deleted key must be not-found, every other key must hold its last acknowledged value, a full scan must equal the oracle, again after a final fault-free range compaction - non-trivial when the fault fired")
 	skipWrite := false
 	defer func() {
 		if !skipWrite {
@@ -527,6 +527,18 @@ func main() {
 		b, err := os.ReadFile(a.Replay)
 		if err != nil {
 			fmt.Println("cannot read replay:", err)
+			return
+		}
+		if ds, ok := dbh.LoadDeepSpec(a.Replay); ok {
+			for i := 0; i < 3; i++ {
+				res.Eval(fmt.Sprintf("deep-replay%d", i), true)
+				if dr := dbh.RunDeep(*ds, false); dr.Failure != "" {
+					fmt.Println("replay fails:", dr.Failure)
+					res.Violate(dr.Failure, ds)
+					return
+				}
+			}
+			fmt.Println("replay passes")
 			return
 		}
 		var wr struct {
@@ -770,6 +782,13 @@ func main() {
 	}
 	close(jobs)
 	wg.Wait()
+	ndeep := 64
+	if a.Thorough() {
+		ndeep = 1200
+	} else if strings.Contains(a.Extra, "search") {
+		ndeep = 400
+	}
+	runDeepFamily(a.Seed, ndeep, res)
 	// deterministic order; scenarios in which a fault fired first; bounded text per file
 	sort.Slice(kcases, func(i, j int) bool {
 		if kcases[i].hit != kcases[j].hit {
